@@ -1060,7 +1060,9 @@ def run(chk: Check) -> None:
         for en in entries:
             if en["real"] == en["model"]:
                 continue
-            same = all(r is not None and r == v[0] for r, v in zip(en["R"], en["vals"]))
+            # one-sided: the real chain has the model's value, or the JAX value where the model (of the
+            # code with its listed defects) deviates from JAX
+            same = all(r is not None and (r == v[0] or r == v[2]) for r, v in zip(en["R"], en["vals"]))
             if same:
                 stats["chain_drift_same_value"] += 1
                 drift.append({"program": prog.name, "expr": str(en["live"]), "model": en["model"], "real": en["real"]})
